@@ -103,6 +103,7 @@ structure St where
   cv : List (Option Nat)      -- const_value of each initializer (all graphs, in `model.graphs()` order)
   cb : List (String × Nat) := []   -- progress-callback log: (tensor name, offset)
   cbTotal : Option Nat := none
+  wopened : List String := []      -- files successfully opened for writing so far (the handles writes go through)
   deriving Repr, Inhabited
 
 abbrev M (α : Type) := St → Except Err α × St
@@ -157,19 +158,27 @@ def forM' (f : α → M Unit) : List α → M Unit
 
 /-! ## File-system primitives -/
 
+/-- Writing goes through a handle obtained by a successful `open(f, "wb")` (never violated by the transcribed
+sequence; `EBADF` otherwise). -/
+def needHandle (f : String) : M Unit := fun s =>
+  if s.wopened.contains f then (.ok (), s) else (.error .osError, s)
+
 def fsOpenW (f : String) : M Unit := do
   tick (.openW f)
-  modify fun s => { s with fs := s.fs.set f (.data []) }
+  modify fun s => { s with fs := s.fs.set f (.data []), wopened := s.wopened ++ [f] }
 
 def fsWrite (f : String) (b : Bytes) : M Unit := do
+  needHandle f
   tick (.write f b.length)
   modify fun s => { s with fs := s.fs.append f b }
 
 /-- C-level write of `ndarray.tofile` through a dup'ed descriptor: not interceptable, not a fault point. -/
-def fsCWrite (f : String) (b : Bytes) : M Unit :=
+def fsCWrite (f : String) (b : Bytes) : M Unit := do
+  needHandle f
   modify fun s => { s with fs := s.fs.append f b }
 
 def fsWriteProto (f : String) (p : Proto) : M Unit := do
+  needHandle f
   tick (.write f 0)
   modify fun s => { s with fs := s.fs.set f (.proto p) }
 
@@ -324,6 +333,14 @@ def makeExternal (dest : String) (p : Ent × Nat) : M (Nat × Nat) := do
   let nid ← newObj (.ext dest p.2 p.1.size true)
   pure (p.1.pos, nid)
 
+/-- `[made[pos] for pos in i, i+1, …]` — the new tensors back in input order (`made` is keyed by input position). -/
+def gather (made : List (Nat × Nat)) : Nat → Nat → Option (List Nat)
+  | _, 0 => some []
+  | i, fuel + 1 =>
+    match made.lookup i, gather made (i + 1) fuel with
+    | some v, some r => some (v :: r)
+    | _, _ => none
+
 /-- Sorting, offsets, writing, new objects, back to the input order (everything after materialisation). -/
 def placeAndWrite (dest : String) (verbose : Bool) (names : List String) (ids : List Nat) : M (List Nat) := do
   let sizes ← mapM' sizeOf ids
@@ -333,7 +350,7 @@ def placeAndWrite (dest : String) (verbose : Bool) (names : List String) (ids : 
   let placed := zipOffsets sorted lay
   writeExternalData dest verbose (placed.map fun (e, o) => (e.name, e.id, o))
   let made ← mapM' (makeExternal dest) placed                 -- in sorted order
-  match (List.range names.length).mapM (fun i => made.lookup i) with   -- back to the input order
+  match gather made 0 names.length with                         -- back to the input order
   | some out => pure out
   | none => throw .typeError
 
@@ -344,31 +361,54 @@ def convertToExternal (dest : String) (verbose : Bool) (inp : List (String × Na
   let ids ← mapM' (materializeOne dest exists_) inp
   placeAndWrite dest verbose (inp.map (·.1)) ids
 
-def setCv (i : Nat) (id : Nat) : M Unit :=
-  modify fun s => { s with cv := s.cv.set i (some id) }
+/-- What `unload_from_model` does with an initializer: `ext` — `nbytes > 256`, (re)written to the data file;
+`mem` — a small `ExternalTensor`, loaded to memory; `keep` — untouched (small in-memory tensor, or no `const_value`). -/
+inductive Tag
+  | ext | mem | keep
+  deriving Repr, DecidableEq, Inhabited
 
-def forZip (f : α → β → M Unit) : List α → List β → M Unit
-  | a :: as, b :: bs => do f a b; forZip f as bs
-  | _, _ => pure ()
+def classify (heap : List TRef) : Option Nat → Tag
+  | none => .keep
+  | some id =>
+    match heap[id]? with
+    | none => .keep
+    | some t =>
+      if t.nbytes > sizeThreshold then .ext
+      else match t with
+        | .ext _ _ _ _ => .mem
+        | .mem _ _ => .keep
 
-/-- `unload_from_model(model, base_dir, relative_path, size_threshold_bytes=256)`; `names[i]` names initializer `i`. -/
-def unload (names : List String) (dest : String) (verbose : Bool) : M Unit := do
+/-- `initializers_to_become_external` as (tensor name, tensor object), in `model.graphs()` order; `tnames[id]` is
+the `name` of tensor object `id` (what the progress callback prints). -/
+def extInputs (heap : List TRef) (tnames : List String) : List (Option Nat) → List (String × Nat)
+  | some id :: cv =>
+    if classify heap (some id) = .ext then (tnames.getD id "", id) :: extInputs heap tnames cv
+    else extInputs heap tnames cv
+  | none :: cv => extInputs heap tnames cv
+  | [] => []
+
+/-- `initializers_to_load_to_memory` (tensor objects), in order. -/
+def memInputs (heap : List TRef) : List (Option Nat) → List Nat
+  | some id :: cv => if classify heap (some id) = .mem then id :: memInputs heap cv else memInputs heap cv
+  | none :: cv => memInputs heap cv
+  | [] => []
+
+/-- The two `for value, tensor in zip(values, tensors): value.const_value = tensor` loops: every `ext`-tagged
+initializer takes the next new external tensor, every `mem`-tagged one the next loaded tensor. -/
+def mergeCv (heap : List TRef) : List (Option Nat) → List Nat → List Nat → List (Option Nat)
+  | [], _, _ => []
+  | c :: cv, es, ms =>
+    match classify heap c, es, ms with
+    | .ext, e :: es', _ => some e :: mergeCv heap cv es' ms
+    | .mem, _, m :: ms' => some m :: mergeCv heap cv es ms'
+    | _, _, _ => c :: mergeCv heap cv es ms
+
+/-- `unload_from_model(model, base_dir, relative_path, size_threshold_bytes=256)`; `tnames[id]` names tensor object `id`. -/
+def unload (tnames : List String) (dest : String) (verbose : Bool) : M Unit := do
   let s ← get
-  -- classification, in `model.graphs()` / insertion order
-  let idx := List.range s.cv.length
-  let toExt := idx.filter fun i => match s.cv[i]? with
-    | some (some id) => (match s.heap[id]? with | some t => t.nbytes > sizeThreshold | none => false)
-    | _ => false
-  let toMem := idx.filter fun i => match s.cv[i]? with
-    | some (some id) => (match s.heap[id]? with
-        | some (.ext _ _ len _) => !(len > sizeThreshold)
-        | _ => false)
-    | _ => false
-  let objOf := fun i => match s.cv[i]? with | some (some id) => id | _ => 0
-  let memIds ← mapM' (fun i => extToMem (objOf i)) toMem          -- convert_tensors_from_external
-  let extIds ← convertToExternal dest verbose (toExt.map fun i => (names.getD i "", objOf i))
-  forZip setCv toExt extIds
-  forZip setCv toMem memIds
+  let memIds ← mapM' extToMem (memInputs s.heap s.cv)          -- convert_tensors_from_external, first
+  let extIds ← convertToExternal dest verbose (extInputs s.heap tnames s.cv)
+  modify fun s' => { s' with cv := mergeCv s.heap s.cv extIds memIds }
 
 /-- `serde.serialize_model`: initializers without a `const_value` are dropped (a warning is logged). -/
 def serializeAux (heap : List TRef) : List (String × Bool) → List (Option Nat) → Except Err Proto
@@ -390,10 +430,10 @@ def serialize (sig : List (String × Bool)) (s : St) : Except Err Proto := seria
 def joinPath (dir name : String) : String := if dir = "" then name else dir ++ "/" ++ name
 
 /-- `ir.save(model, path, external_data=rel, callback=…)`. -/
-def irSave (sig : List (String × Bool)) (dir name rel : String) (verbose : Bool) : M Unit := do
+def irSave (sig : List (String × Bool)) (tnames : List String) (dir name rel : String) (verbose : Bool) : M Unit := do
   let orig := (← get).cv                                  -- initialized_values / tensors
   tryFinally (do
-      unload (sig.map (·.1)) (joinPath dir rel) verbose
+      unload tnames (joinPath dir rel) verbose
       match serialize sig (← get) with
       | .error e => throw e
       | .ok p => do
@@ -407,16 +447,17 @@ def guardHits (deep : Bool) (sig : List (String × Bool)) (cv : List (Option Nat
   ((sig.zip cv).filter fun (x : (String × Bool) × Option Nat) => x.2.isNone && (deep || !x.1.2)).map (·.1.1)
 
 /-- `save_model_with_external_data(model, model_path, verbose)`; `model_path = dir/name`. -/
-def save (deep : Bool) (sig : List (String × Bool)) (dir name : String) (verbose : Bool) : M Unit := do
+def save (deep : Bool) (sig : List (String × Bool)) (tnames : List String) (dir name : String) (verbose : Bool) : M Unit := do
   let s ← get
   if !(guardHits deep sig s.cv).isEmpty then throw .valueError
-  else irSave sig dir name (name ++ ".data") verbose
+  else irSave sig tnames dir name (name ++ ".data") verbose
 
 /-- A model in memory: initializer signature (name, in-subgraph), `const_value` pointers, tensor objects. -/
 structure Model where
   sig : List (String × Bool)
   cv : List (Option Nat)
   heap : List TRef
+  tnames : List String := []      -- `name` of each tensor object (only the progress callback looks at it)
   deriving Repr, Inhabited, DecidableEq
 
 structure Result where
@@ -429,12 +470,12 @@ def init (m : Model) (fs : FS) (k : Option Nat) : St :=
 
 /-- Run the save on model `m`, file system `fs`, fault plan `k`. -/
 def runSave (deep : Bool) (m : Model) (dir name : String) (verbose : Bool) (fs : FS) (k : Option Nat) : Result :=
-  match save deep m.sig dir name verbose (init m fs k) with
+  match save deep m.sig m.tnames dir name verbose (init m fs k) with
   | (r, s) => { res := r, st := s }
 
 /-- The model after the call: same signature, the state's pointers, the *original* objects' state. -/
 def Result.model (r : Result) (m : Model) : Model :=
-  { sig := m.sig, cv := r.st.cv, heap := r.st.heap.take m.heap.length }
+  { sig := m.sig, cv := r.st.cv, heap := r.st.heap.take m.heap.length, tnames := m.tnames }
 
 /-- Bytes a tensor object denotes on a file system (`none`: invalidated, or unreadable). -/
 def bytesOf (fs : FS) : TRef → Option Bytes
